@@ -590,16 +590,18 @@ def run(ctx):
                     return True
             return False
 
-        if "_inherited_value(" in rv:
+        if not own_value(rv):
+            # the inherited value (through a helper or read from the base placeholder here), or None when there is no base
             if not fact_own(True):
                 probs.append("the inherited value is returned on a path that has not established that the placeholder's own value is None (%s)" % (
                     "; ".join(str(a) for a in fs)[:80] or "unconditionally"))
-        elif own_value(rv):
+        else:
             if not fact_own(False):
                 probs.append("the placeholder's own value is returned without establishing that it is not None: a placeholder with a partial "
                              "a:xfrm (only a rotation, only a size, only a position) reports None where its layout's value applies")
-        else:
-            probs.append("?returns `%s`" % rv[:50])
+    if not npaths or not any(own_value(_P136.full(p_.end_node.value, val136)) for p_ in _P136.enum_paths(evx.body)
+                             if p_.end == "return" and p_.end_node.value is not None):
+        probs.append("?no path returns the placeholder's own value (getattr(super(), attr))")
     if not npaths or any(p_.startswith("?") for p_ in probs):
         ctx.error("_InheritsDimensions._effective_value", "own value / inherited value selection not recognised (%s)" % "; ".join(probs)[:120])
     elif probs:
